@@ -726,6 +726,8 @@ def iterate(ex, v, live=False):
         return [T.getitem(v, k) for k in range(n)]
     if isinstance(v, _LazyIter):
         return v.items()
+    if isinstance(v, SymRange):
+        raise OutOfSubset('range() over a symbolic bound')
     if v is None:
         raise PyRaise('TypeError', "'NoneType' object is not iterable")
     if isinstance(v, (int, float, SymScalar)) or is_sym(v):
@@ -733,6 +735,12 @@ def iterate(ex, v, live=False):
     if isinstance(v, I.SObj):
         raise PyRaise('TypeError', "'%s' object is not iterable" % v.cls.name)
     raise OutOfSubset('iteration over %s' % type(v).__name__)
+
+
+class SymRange(object):
+    """range(n) with a symbolic bound: only usable as data (torch.tensor(range(n))) or by the loop contract"""
+    def __init__(self, n):
+        self.n = n
 
 
 class _LazyIter(object):
@@ -833,7 +841,7 @@ def store_subscript(ex, obj, idx, v):
 # attributes of values
 # ------------------------------------------------------------------------------------------------
 
-_TENSOR_METHODS = {'clone', 'detach', 'to', 'cpu', 'cuda', 'numpy', 'numel', 'permute', 'requires_grad_', 't', 'conj',
+_TENSOR_METHODS = {'topk', 'clone', 'detach', 'to', 'cpu', 'cuda', 'numpy', 'numel', 'permute', 'requires_grad_', 't', 'conj',
                    'backward', 'retain_grad', 'reshape', 'sum', 'item', 'size', 'dim', 'squeeze', 'unsqueeze', 'norm',
                    'copy', 'flatten', 'transpose', 'contiguous', 'double', 'float', 'view', 'abs', 'tolist', 'type', 'index'}
 _LIST_METHODS = {'append', 'copy', 'index', 'count', 'extend', 'insert', 'pop', 'reverse', 'sort', 'remove', 'clear'}
@@ -1050,6 +1058,8 @@ def call_builtin(ex, f, args, kwargs):
         if n == 'range':
             vals = [int_expr(a) for a in args]
             if any(is_sym(v) for v in vals):
+                if len(vals) == 1:
+                    return SymRange(vals[0])
                 raise OutOfSubset('range() over a symbolic bound')
             for v in vals:
                 if not isinstance(v, int):
@@ -1308,6 +1318,8 @@ def tensor_method(ex, t, name, args, kwargs):
         return T.permute(t, p)
     if name == 'flatten':
         return T.reshape(t, [-1])
+    if name == 'topk':
+        return _topk(ex, t, args, kwargs)
     if name == 'conj':
         return T.conj(t)
     if name == 'abs':
@@ -1473,6 +1485,9 @@ def _tensor(ex, a, k):
     if isinstance(data, STensor):
         out = T.from_data(data, dtype)
         return out
+    if isinstance(data, SymRange):
+        require(to_int(data.n) >= 0, 'RuntimeError', 'negative length')
+        return T.arange_tensor(data.n, dtype or 'int64')
     if isinstance(data, I.SObj) or data is None or isinstance(data, (str, I.Opaque)):
         raise PyRaise('RuntimeError', 'Could not infer dtype', origin='torch')
     if is_sym(data):
@@ -2162,3 +2177,166 @@ def _math_sqrt(ex, a, k):
     if isinstance(r, SymScalar):
         return SymScalar(r.expr, 'float', 'float')
     return r
+
+
+# ------------------------------------------------------------------------------------------------
+# index computations of the cross approximation (interpolate.py): LU pivots, topk, sort, unravel_index, outer, stacking
+# ------------------------------------------------------------------------------------------------
+
+@ext('torch.linalg.lu_factor')
+def _lu_factor(ex, a, k):
+    """assumed contract: LU (m x n, same dtype) and pivots (int32, length min(m, n), 1-based row numbers)"""
+    A = a[0]
+    if not isinstance(A, STensor) or A.ndim != 2:
+        raise PyRaise('RuntimeError', 'linalg.lu_factor: expected a matrix', origin='torch')
+    if A.dtype not in T.FLOATS + T.COMPLEX:
+        raise PyRaise('RuntimeError', 'linalg.lu_factor: expected a floating point or complex tensor', origin='torch')
+    m, n = A.shape
+    LU = T.opaque_with_axes(list(A.axes), A.dtype, 'LU')
+    LU._val = None
+    LU.ghost['lu_of'] = A
+    piv = T.opaque_int_tensor([T.Axis(_min_size(ex, m, n))], 1, to_int(m) + 1, 'pivots', dtype='int32')
+    piv.ghost['lu_of'] = A
+    T.derive(LU, A)
+    return (LU, piv)
+
+
+@ext('torch.lu_unpack')
+def _lu_unpack(ex, a, k):
+    """assumed contract: P (m x m permutation matrix, dtype of LU), L (m x k), U (k x n), k = min(m, n)"""
+    LU, piv = a[0], a[1]
+    if not isinstance(LU, STensor) or LU.ndim != 2 or not isinstance(piv, STensor) or piv.dtype != 'int32':
+        raise PyRaise('RuntimeError', 'lu_unpack: expected LU data and int32 pivots', origin='torch')
+    m, n = LU.shape
+    kk = _min_size(ex, m, n)
+    if not T.known_eq(piv.shape[0], kk):
+        require(to_int(piv.shape[0]) == to_int(kk), 'RuntimeError', 'lu_unpack: pivots have the wrong length')
+    P = T.opaque_with_axes([LU.axes[0], T.Axis(m)], LU.dtype, 'P')
+    P._val = None
+    P.ghost['perm'] = True
+    L = T.opaque_with_axes([LU.axes[0], T.Axis(kk)], LU.dtype, 'L')
+    L._val = None
+    U = T.opaque_with_axes([T.Axis(kk), LU.axes[1]], LU.dtype, 'Uf')
+    U._val = None
+    for t in (P, L, U):
+        T.derive(t, LU)
+    return (P, L, U)
+
+
+def _topk(ex, t, args, kwargs):
+    """assumed contract (1-D input, k <= length): values (k) and int64 positions in [0, length)"""
+    kk = int_expr(args[0] if args else kwargs.get('k'))
+    if t.ndim != 1 or is_sym(kk):
+        raise OutOfSubset('topk of a non 1-D tensor / symbolic k')
+    n = t.shape[0]
+    require(to_int(n) >= kk, 'RuntimeError', 'selected index k out of range')
+    vals = T.opaque_tensor([kk], t.dtype, 'topk')
+    vals._val = None
+    T.derive(vals, t)
+    pos = T.opaque_int_tensor([T.Axis(kk)], 0, n, 'topk_pos')
+    return (vals, pos)
+
+
+@ext('torch.sort')
+def _sort(ex, a, k):
+    """assumed contract (1-D): (sorted values, positions); the sorted values are the entries of the input in another order"""
+    t = a[0]
+    if not isinstance(t, STensor) or t.ndim != 1:
+        raise OutOfSubset('sort of a non 1-D tensor')
+    pos = T.opaque_int_tensor([t.axes[0]], 0, t.shape[0], 'sort_pos')
+    vals = T.getitem(t, (pos,)) if t.ival is not None else T.opaque_with_axes(list(t.axes), t.dtype, 'sorted')
+    if t.ival is None:
+        vals._val = None
+        T.derive(vals, t)
+    return (vals, pos)
+
+
+@ext('torch.outer')
+def _outer(ex, a, k):
+    x, y = a[0], a[1]
+    if not (isinstance(x, STensor) and isinstance(y, STensor)) or x.ndim != 1 or y.ndim != 1:
+        raise PyRaise('RuntimeError', 'outer: expected 1D tensors', origin='torch')
+    return T.contract([x, y], [['i'], ['j']], ['i', 'j'], contiguous=True)
+
+
+@ext('numpy.unravel_index')
+def _unravel_index(ex, a, k):
+    """assumed contract of numpy.unravel_index(v, shape) (C order): every entry of v must lie in [0, prod(shape)) (ValueError
+    otherwise); returns one integer array per dimension with v = sum_k r_k * stride_k and 0 <= r_k < shape[k]"""
+    v, shape = a[0], a[1]
+    if isinstance(shape, I.SSize):
+        shape = list(shape.sizes) if hasattr(shape, 'sizes') else list(iterate(ex, shape))
+    shape = [int_expr(x) for x in (iterate(ex, shape) if not isinstance(shape, (list, tuple)) else shape)]
+    total = T.prod([to_int(x) for x in shape])
+    nd = len(shape)
+
+    def split(val):
+        """fresh r_0..r_{nd-1} with val = ((r_0*s_1 + r_1)*s_2 + ...) and ranges"""
+        rs = [fresh_int('ur') for _ in shape]
+        acc = rs[0]
+        for r, s_ in zip(rs[1:], shape[1:]):
+            acc = acc * to_int(s_) + r
+        facts = [acc == val] + [z3.And(r >= 0, r < to_int(s_)) for r, s_ in zip(rs, shape)]
+        return rs, facts
+    if isinstance(v, STensor) and v.ndim >= 1:
+        if v.ival is None:
+            raise OutOfSubset('unravel_index of an untracked integer tensor')
+        pos = [tuple(fresh_int('j') for _ in ax.factors) for ax in v.axes]
+        bounds = [z3.And(x >= 0, x < to_int(f.size)) for ax, tup in zip(v.axes, pos) for x, f in zip(tup, ax.factors)]
+        e = v.ival(pos)
+        cond = z3.And(e >= 0, e < total)
+        T.require_for_all(cond, bounds, 'ValueError', 'unravel_index: index is out of bounds for array with size %s' % total)
+        fs = [z3.Function('unravel!%d' % next(T._ids), *([z3.IntSort()] * v.ndim + [z3.IntSort()])) for _ in shape]
+        outs = []
+        for kdim in range(nd):
+            def ival(idx, kdim=kdim):
+                args = [to_int(T.flatten_ix(i, ax.factors)) if len(ax.factors) > 1 else to_int(i[0]) for i, ax in zip(idx, v.axes)]
+                rs = [f(*args) for f in fs]
+                acc = rs[0]
+                for r, s_ in zip(rs[1:], shape[1:]):
+                    acc = acc * to_int(s_) + r
+                inb = [z3.And(to_int(x) >= 0, to_int(x) < to_int(fc.size)) for i, ax in zip(idx, v.axes) for x, fc in zip(i, ax.factors)]
+                facts = z3.And(acc == v.ival(idx), *[z3.And(r >= 0, r < to_int(s_)) for r, s_ in zip(rs, shape)])
+                ex.pc.add(z3.Implies(z3.And(*inb), facts))
+                return rs[kdim]
+            o = STensor(list(v.axes), 'int64', None, lib='numpy', ival=ival)
+            o._val = (lambda idx, iv=ival: Term.of(z3.ToReal(iv(idx))))
+            outs.append(T.derive(o, v, differentiable=False))
+        return tuple(outs)
+    # scalar
+    if isinstance(v, STensor):
+        if v.ival is None:
+            raise OutOfSubset('unravel_index of an untracked integer tensor')
+        e = v.ival([])
+    else:
+        e = int_expr(v)
+    require(z3.And(to_int(e) >= 0, to_int(e) < total), 'ValueError', 'index is out of bounds for array with size %s' % total)
+    rs, facts = split(to_int(e))
+    for f in facts:
+        ex.pc.add(f)
+    return tuple(SymScalar(r, 'int', 'np.int64') for r in rs)
+
+
+def _np_stack(axis):
+    def f(ex, a, k):
+        seq = list(iterate(ex, a[0]))
+        ts = []
+        for x in seq:
+            if not isinstance(x, STensor):
+                raise OutOfSubset('stacking of non-arrays')
+            if x.ndim == 1:
+                x = T.unsqueeze(x, 0) if axis == 0 else x
+            ts.append(x)
+        if axis == 1 and all(t.ndim == 1 for t in ts):
+            out = T.cat(ts, 0)
+        else:
+            out = T.cat(ts, axis)
+        out.lib = 'numpy'
+        return out
+    return f
+
+
+EXT['numpy.vstack'] = _np_stack(0)
+EXT['numpy.hstack'] = _np_stack(1)
+EXT['torch.vstack'] = _np_stack(0)
+EXT['torch.hstack'] = _np_stack(1)
